@@ -24,13 +24,11 @@ def main():
         root = d / "repo"
         shutil.copytree("/repo/include", root / "include")
         if a.patch:
-            r = subprocess.run(["git", "apply", "--unsafe-paths", "--directory", str(root), os.path.abspath(a.patch)],
+            r = subprocess.run(["patch", "-p1", "--no-backup-if-mismatch", "-i", os.path.abspath(a.patch)],
                                capture_output=True, text=True, cwd=str(root))
             if r.returncode != 0:
-                r = subprocess.run(["patch", "-p1", "-i", os.path.abspath(a.patch)], capture_output=True, text=True, cwd=str(root))
-                if r.returncode != 0:
-                    print("patch failed:", r.stdout, r.stderr)
-                    return 2
+                print("patch failed:", r.stdout, r.stderr)
+                return 2
         else:
             p = root / a.file
             s = p.read_text()
